@@ -45,13 +45,16 @@ def impl(case) -> str:
         m = W.make_message(dns, case, factory=lambda **kw: dns._EDNSMessage(
             ednsVersion=case["edns"]["version"], dnssecOK=case["edns"]["do"], **kw))
         m.rCode = case["edns"]["rCode"]
+        orig_trunc = m.trunc
         data = m.toStr()
         m2 = dns._EDNSMessage()
         m2.fromStr(data)
+        m.trunc = orig_trunc                 # toStr marks the message object itself when it truncates
         same = (m2 == m) and m2.rCode == m.rCode and m2.ednsVersion == m.ednsVersion and m2.dnssecOK == m.dnssecOK \
             and m2.maxSize == m.maxSize and m2.queries == m.queries and m2.answers == m.answers \
             and m2.additional == m.additional
-        return data.hex() + "|" + ("same" if same else "differs")
+        n2 = len(m2.queries) + len(m2.answers) + len(m2.authority) + len(m2.additional)
+        return f"{data.hex()}|tc={int(m2.trunc)}|n={n2}|" + ("same" if same else "differs")
     raise ValueError(k)
 
 
@@ -95,14 +98,26 @@ def _flat(case):
 def oracle(case, obs):
     k = case["kind"]
     if k == "edns":
-        if len(obs.split("|")[0]) // 2 > case["maxSize"]:
-            return Failure(case, "EDNS message encoded beyond its maxSize", "edns-size")
-        if len(obs.split("|")[0]) // 2 == case["maxSize"] and obs.endswith("|differs"):
-            return None                 # did not fit: truncation (checked by the msg cases) drops the OPT record too
-        if not obs.endswith("|same"):
-            tag = "edns-truncated-at-512" if len(obs.split("|")[0]) // 2 == 512 and case["maxSize"] > 512 else "edns-roundtrip"
-            return Failure(case, "EDNS message within its maxSize does not round-trip (version / DO / payload size / "
-                                 "12-bit rCode / records)" + (": cut at 512 bytes" if tag != "edns-roundtrip" else ""), tag)
+        enc, tc, n2, verdict = obs.split("|")
+        size, tc, n2 = len(enc) // 2, int(tc[3:]), int(n2[2:])
+        mx = case["maxSize"]
+        n_orig = len(case["q"]) + len(case["an"]) + len(case["ns"]) + len(case["ar"])
+        full = impl({**case, "maxSize": 0})
+        full_len = len(full.split("|")[0]) // 2
+        if mx == 0 or full_len <= mx:
+            # no limit, or it fits: never truncated, full round trip (version / DO / payload size / 12-bit rCode / records)
+            if verdict != "same" or tc != 0:
+                tag = ("edns-unlimited-truncated" if mx == 0 else
+                       "edns-truncated-at-512" if size == 512 and mx > 512 else "edns-roundtrip")
+                return Failure(case, f"EDNS message of {full_len} bytes with maxSize {mx} does not round-trip: {size} bytes "
+                                     f"on the wire, TC={tc}, {n2} of {n_orig} records", tag)
+            return None
+        # larger than its limit: within the limit, TC set, records dropped
+        if size > mx:
+            return Failure(case, f"EDNS message encoded in {size} bytes for maxSize {mx}", "edns-over-limit")
+        if tc != 1 or n2 >= n_orig + 1:
+            return Failure(case, f"EDNS message of {full_len} bytes cut to {size} (maxSize {mx}) without the TC flag "
+                                 f"(TC={tc}, {n2} of {n_orig} records)", "edns-truncation-flag")
         return None
     names = list(_names(case))
     long_label = any(len(l) // 2 > 63 for n in names for l in n)
@@ -418,6 +433,12 @@ def corpus():
         cs.append(c)
     for target in (16382, 16383, 16384, 16385):                # the 14-bit pointer boundary, exactly
         cs.append(offset_message(target, [hx(b"late"), hx(b"name"), hx(b"test")]))
+    c = gen_message(rng, "tiny")                               # records whose RDATA is legitimately empty (seeded C32-H)
+    c["q"], c["ns"], c["ar"], c["maxSize"] = [[[hx(b"e"), hx(b"example")], 255, 1]], [], [], 0
+    c["an"] = [{"n": [hx(b"e"), hx(b"example")], "t": t, "c": 1, "ttl": 9, "d": d}
+               for t, d in ((10, [{"b": ""}]), (16, [{"l": []}]), (99, [{"l": []}]), (41, [{"b": ""}]), (65280, [{"b": ""}]),
+                            (0, [{"b": ""}]), (16, [{"l": [""]}]), (1, [{"b": "01020304"}]))]
+    cs.append(c)
     for depth in (16, 17, 18, 40):                             # pointer chains one hop per level (seeded C32-C)
         cs.append(chain_message(depth))
     for k in (61, 62, 63):                                     # 193 + k + 1 bytes: 255 fits, 256 / 257 do not (C32-D)
@@ -483,11 +504,24 @@ def gen(rng, tier):
     if tier == "thorough":
         for k in (64, 65, 66, 67, 68):
             cases.append(big_message(rng, k, gen_name(rng) or [hx(b"z")]))
-    # EDNS
+    # EDNS: every size limit with messages below it, above it, and above 512 bytes
+    for mx in (0, 100, 300, 511, 512, 513, 1024, 4096) * (1 if tier == "quick" else 12):
+        for fill in (0, 1, 3, 6):
+            c = gen_message(rng, "tiny")
+            c["kind"] = "edns"
+            c["maxSize"] = mx
+            c["hdr"]["trunc"] = 0
+            c["an"] = c["an"][:1] + [{"n": [hx(b"fill"), hx(b"example")], "t": 16, "c": 1, "ttl": j,
+                                      "d": [{"l": [hx(b"y" * rng.choice([150, 200, 250]))]}]} for j in range(fill)]
+            c["edns"] = {"version": rng.choice([0, 0, 1]), "do": rng.choice([True, False]), "rCode": rng.choice([0, 3, 16, 4095])}
+            c["ar"] = [r for r in c["ar"] if r["t"] != 41]
+            if fill == 0:                     # a message that fits even the smallest limit (30 bytes with its OPT record)
+                c["q"], c["an"], c["ns"], c["ar"] = [[[hx(b"a")], 1, 1]], [], [], []
+            cases.append(c)
     for i in range(n // 10):
         c = gen_message(rng, "small")
         c["kind"] = "edns"
-        c["maxSize"] = rng.choice([512, 1232, 4096, 65535])
+        c["maxSize"] = rng.choice([0, 512, 1232, 4096, 65535])
         c["hdr"]["trunc"] = 0
         c["edns"] = {"version": rng.choice([0, 0, 1, 255]), "do": rng.choice([True, False]),
                      "rCode": rng.choice([0, 3, 15, 16, 23, 4095])}
@@ -561,7 +595,9 @@ SPEC = Spec(
          "4% a 256+-byte name (must be refused); each valid message also under 1-2 size limits (12, 13, 17, ... 512, "
          "65535, random below its size); compression-stress messages (2-8 records over one base suffix, targets "
          "sharing it, swapped case); > 16 KiB messages whose names first occur beyond offset 16383 (corpus + "
-         "thorough); EDNS messages through _EDNSMessage. non-trivial = at least one query or record",
+         "thorough); EDNS messages through _EDNSMessage with maxSize 0 / 100 / 300 / 511 / 512 / 513 / 1024 / "
+         "4096 and 0, 1, 3 or 6 filler records (below the limit, above it, above 512 bytes): unlimited or fitting => full "
+         "round trip and no TC; otherwise within the limit with TC set. non-trivial = at least one query or record",
     trusted=[
         "hand-written model coq/Lib/WireDns.v (tied only as far as the generated cases reach)",
         "the Python-side attribute table harness/wire_dns.py FIELDS (record class -> attributes) and the independent "
